@@ -56,6 +56,8 @@ KINDS = {
     "maildir-message": "/md|/MAILDIR-MESSAGE/1",
     "zip-listing": "/arc.zip/d",
     "zip-member": "/arc.zip/d/b.txt",
+    "zip2-member": "/arc2.zip/nope/x",
+    "zip2-listing": "/arc2.zip",
     "script": "/script.sh",
     "tal": "/t.html.tal",
     "gz": "/z.txt.gz",
@@ -105,7 +107,9 @@ def make_spec(bigsize=9000, nmsg=3, ndocs=4):
         {"p": "arc.zip", "k": "zip", "members": [["a.txt", "zip a\n"], ["d/", ""],
                                                   ["d/b.txt", {"rep": ["zip member line\n", 400]}],
                                                   ["d/c.txt", "c\n"]]},
-        {"p": "script.sh", "k": "file", "d": "#!/bin/sh\necho hello from script\necho more\n", "x": True},
+        {"p": "arc2.zip", "k": "zip", "members": [["nope/x", "in the second archive\n"], ["d/only2.txt", "2\n"],
+                                                   ["a.txt", "another a\n"]]},
+        {"p": "script.sh", "k": "file", "d": "#!/bin/sh\necho hello from script\necho \"query=$SEARCHREQUEST\"\n", "x": True},
         {"p": "t.html.tal", "k": "file",
          "d": "<html><body>Selector: <b tal:content=\"selector\">s</b>"
               "<p tal:repeat=\"i python:range(5)\">row <i tal:content=\"i\">0</i></p></body></html>\n"},
